@@ -120,12 +120,12 @@ HARNESSES = [
     desc='arena pool-state flag', bounds={'threads': 2}),
 ]
 EXC = dict(cbmc=['--unwind', '4', '--object-bits', '12'], timeout=1800)
-HARNESSES.append(H(name='execute_slot_wait', unit='exec_e', harness='h_exec.c', defines={'SIDE': 1, 'ROUNDS': 2, 'EXTRA_E': 1},
-    scenarios=[{'LSLOT': 0}], scenarios_thorough=[{'LSLOT': 0}, {'LSLOT': 1}],
+HARNESSES.append(H(name='execute_slot_wait', unit='exec_e', harness='h_exec.c', defines={'SIDE': 1, 'ROUNDS': 1, 'EXTRA_E': 1},
+    scenarios=[{'LSLOT': 0}], scenarios_thorough=[{'LSLOT': 0}, {'LSLOT': 1}], thorough_override=dict(defines={'SIDE': 1, 'ROUNDS': 2, 'EXTRA_E': 1}),
     desc='task_arena::execute waiting for a free slot, entrant side: REAL task_arena_impl::execute (delegated_task, loop prepare_wait -> work done? -> occupy_free_slot '
          '-> commit_wait on my_exit_monitors; enqueue_task and the nested_arena_context ctor/dtor cut) vs a leaving occupant doing the two real calls of '
          '~nested_arena_context: my_slots[LSLOT].release(); my_exit_monitors.notify_one(). prepare_wait/cancel_wait/notify_one_relaxed are one atomic step each',
-    bounds={'threads': 2, 'free_rounds': 2, 'forced_rounds': 2, 'unroll': 1, 'entrant_extra_slices_per_round': 1}, **EXC))
+    bounds={'threads': 2, 'free_rounds': '1 quick / 2 thorough', 'forced_rounds': 2, 'unroll': 1, 'entrant_extra_slices_per_round': 1}, **EXC))
 HARNESSES.append(H(name='execute_slot_wait_worker', unit='exec_ew', harness='h_exec.c', defines={'SIDE': 2, 'ROUNDS': 2, 'EXTRA_E': 1, 'LSLOT': 0}, scenarios=[{}], tiers=['thorough'],
     desc='entrant side (REAL task_arena_impl::execute), no slot ever frees up: a worker runs the REAL delegated_task::execute -> finalize (wait_context release, then '
          'my_exit_monitors.notify(ctx == &delegate)) and must wake the entrant', bounds={'threads': 2, 'free_rounds': 2, 'forced_rounds': 2, 'unroll': 1}, **EXC))
@@ -154,20 +154,21 @@ if _os.environ.get('VP_C02_SCEN'):
 MANIFEST = dict(
   level_text='Bounded model checking of the real sleeping/wake-up code: for 2-3 threads executing the real concurrent_monitor (prepare_wait / re-check / '
              'commit_wait / cancel_wait / wait vs notify_one / notify_all / notify(pred)), sleep_node, binary_semaphore futex protocol and '
-             'concurrent_monitor_mutex, the real tbb::mutex and tbb::rw_mutex over the real address_waiter.cpp, and thread_request_serializer::update / '
-             'set_active_num_workers, every interleaving (single-IR-memory-operation granularity) with up to R scheduling rounds per thread plus two forced '
+             'concurrent_monitor_mutex, the real tbb::mutex and tbb::rw_mutex over the real address_waiter.cpp, the slot wait of task_arena::execute (real execute() / real '
+             '~nested_arena_context(), one side at a time), the arena pool-state flag, and thread_request_serializer[_proxy], every interleaving (single-IR-memory-operation granularity) with up to R scheduling rounds per thread plus two forced '
              'rounds is decided by the SAT solver. Lost wake-up = reachability of a quiescent state in which an unfinished thread is asleep in the (stubbed) '
              'kernel futex queue or parked although its condition holds; plus: a wait returns only after the event, no semaphore token is leaked or posted to '
              'a destroyed node, wait set / mutex / futex queue are clean at the end, no worker-demand delta is lost (total == sum, estimate == min(limit,total)).',
   level_note='Bounds per harness in evidence (threads <= 3, free rounds 1-3, loop unroll 1, concrete operation kinds per query, symbolic schedule/deltas/wake choice). '
-             'Sequential consistency only: the store-buffer (TSO) half of the quantifier, i.e. the atomic_fence_seq_cst in prepare_wait/notify, is NOT covered. '
-             'Arena advertise_new_work/out_of_work, external_waiter/wait_context, bounded queue (C09), private_server/rml wake-up are outside. '
+             'Sequentially consistent except mutex_handshake_tso (x86-TSO store buffers, thorough tier) for the tbb::mutex unlock || sleep hand-shake. '
+             'external_waiter/wait_context, work_enqueued advertising, bounded queue (C09), private_server/rml wake-up are outside. '
              'Trusted: clang-14 IR, tools/devirt.py (virtual-call promotion over the TU vtables), tools/ir2c.py, cbmc; futex(2) contract stub.',
 )
 OUTSIDE = [
-  'store-buffer (x86-TSO) and weaker reorderings: all queries are sequentially consistent, so the full fences in prepare_wait / notify_* / mutex::unlock are not exercised (a dropped fence is not detected)',
+  'store-buffer (x86-TSO) reordering is covered only for the tbb::mutex unlock || sleep hand-shake (mutex_handshake_tso, thorough); every other query is sequentially consistent, so e.g. the full fences of notify_one/notify_all/notify(pred) callers, rw_mutex, the arena flag and the exit monitor are not exercised under TSO; weaker-than-TSO reorderings are outside everywhere',
   'arena::advertise_new_work / out_of_work / atomic_flag three-state protocol, mandatory concurrency via thread_request_serializer_proxy (rw_mutex upgrade path), market/thread_dispatcher/private_server/rml_thread_monitor',
-  'external_waiter / sleep_waiter (waiters.h), wait_context::release -> notify_waiters, task_arena::execute exit monitors as used in arena.cpp (the monitor protocol they use is covered by monitor_*; sop 1 mirrors the arena.cpp calling pattern)',
+  'external_waiter / sleep_waiter (waiters.h), wait_context::release -> notify_waiters',
+  'task_arena::execute slot wait: the real execute() and the real ~nested_arena_context() are each checked against a minimal counterpart (execute_slot_wait / execute_slot_leave), not against each other in one query (solver out of memory); prepare_wait / cancel_wait / notify_one_relaxed / notify_relaxed are single atomic steps there; enqueue_task, r1::wait and the nested_arena_context bookkeeping on the entrant side are stubs',
   'concurrent_bounded_queue (C09), resume/suspend (C20)',
   'abort_all / user_abort exception path of the monitor (units are built with -fno-exceptions)',
   'the bounded spinning phase before sleeping (timed_spin_wait_until) is abstracted to a single poll; the hash of get_address_waiter and collisions of two mutexes in one address-waiter slot',
@@ -179,6 +180,8 @@ STUBS = [
   'r1::get_address_waiter (cut, addr_* harnesses): returns one harness-owned address_waiter constructed by the real constructor instead of slot hash(addr) of the static 2048-entry table',
   'sched_yield / pause: scheduling hints (no-op)',
   'serializer_* only: thread_dispatcher::adjust_job_count_estimate = accumulator; r1::wait_on_address = park until the real wake-up delegate is true, notify_by_address_* = no-op (idealised tbb::mutex slow path; the real one is addr_mutex_*)',
+  'execute_slot_*: arena::enqueue_task (records the delegated task), r1::wait (runs the recorded task inline: functor, wait_context release, completion flag), nested_arena_context ctor/dtor on the entrant side (slot bookkeeping + the two real leave calls), governor::get_thread_data via pthread_getspecific (pure), threading_control::adjust_demand (accumulator)',
+  'mutex_handshake_*: binary_semaphore::P/V = one-flag semaphore; concurrent_monitor_mutex::lock/unlock = plain lock whose acquire/release drain the store buffer (they are locked exchanges)',
   'throw_exception, operator delete, __cxa_pure_virtual: must not be reached (assert)',
 ]
 ASSUMPTIONS = [
